@@ -489,10 +489,8 @@ fn generate_root_definitions(
         // We will clean up the number of namespace nodes at the end
         let mut current_namespace = namespace;
         while let Some(namespace_id) = current_namespace {
-            let name = context
-                .module
-                .namespace_registry
-                .get_namespace_name(namespace_id);
+            // Declare the namespace with the same generated name that references to its contents use
+            let name = context.get_namespace_name(namespace_id)?;
 
             defs = Vec::from([ast::RootDefinition::Namespace(
                 Located::none(name.to_string()),
@@ -4482,6 +4480,11 @@ impl<'m> GenerateContext<'m> {
     /// Get the full name of a struct
     fn get_struct_name_full(&self, id: ir::StructId) -> Result<ScopedName, GenerateError> {
         Ok(self.name_map.get_name_qualified(NameSymbol::Struct(id)))
+    }
+
+    /// Get the name of a namespace
+    fn get_namespace_name(&self, id: ir::NamespaceId) -> Result<&str, GenerateError> {
+        Ok(self.name_map.get_name_leaf(NameSymbol::Namespace(id)))
     }
 
     /// Get the name of an enum
